@@ -1,5 +1,24 @@
-"""C01 — evaluation returns the polynomial's value (DESIGN §5 C01)."""
+"""C01 — evaluation returns the polynomial's value (DESIGN §5 C01).
+
+The rules are formulated on the *normal form* of the mini-MIR (sa.normalize: helpers unknown on the
+pinned tree inlined, closure adaptor chains / try_fold / extend([..]) as explicit `next` loops) and on
+value expressions (`VX`, below) rather than on the syntactic shape of the evaluators:
+
+  value  = the operand of the single `Ok((value, ids))` exit, resolved backwards through copies,
+           references, `?` (Try::branch + Continue payload), Ok-wrapping, tuple building and - for
+           locals with several definitions - as a `phi` of its definitions, in which a reference to
+           the local itself is the marker `acc`.  `sum = init; loop { sum += t }`, `sum = t + sum`,
+           `try_fold(init, |acc, x| Ok(acc + t))?` and `fold` all come out as
+                 phi(sum, [init, Add(acc, t)])
+  loops  = `for` loops (after normalisation): the item of a loop is `next(..) as Some.0`; where an
+           item comes from in the message is found by walking the iterator expression through
+           pure "view" calls (ITERISH) and zips (COMPONENT idioms) down to a field path of `self`.
+A kernel (Linear / Quadratic / Polynomial) is described by message paths (KERNELS) and checked
+against:  value = init + Σ_{terms} coefficient · Π_{ids} state[id],  ids ⊆ returned set.
+"""
 from .common import *
+
+VIEW = 'norm'
 
 STATE_GET = r'HashMap::<u64, f64>::get'
 # documented "is this variable fixed?" probes: a missing entry legitimately means "keep the term"
@@ -7,6 +26,501 @@ PROBE_EXEMPT = {
     ('v1::Linear', 'partial_evaluate'): 1, ('v1::Quadratic', 'partial_evaluate'): 3, ('v1::Polynomial', 'partial_evaluate'): 1,
     ('v1::Instance', 'partial_evaluate'): 1, ('v1::Instance', 'check_bound'): 0,
 }
+
+# what a kernel computes, as field paths from `self` (lists are crossed by loops)
+KERNELS = {
+    'Linear': dict(ty='v1::Linear', init='constant',
+                   coef=[('v1::Linear', 'terms'), ('v1::linear::Term', 'coefficient')],
+                   ids=[[('v1::Linear', 'terms'), ('v1::linear::Term', 'id')]]),
+    'Quadratic': dict(ty='v1::Quadratic', init='linear-part',
+                      coef=[('v1::Quadratic', 'values')],
+                      ids=[[('v1::Quadratic', 'rows')], [('v1::Quadratic', 'columns')]]),
+    'Polynomial': dict(ty='v1::Polynomial', init='zero',
+                       coef=[('v1::Polynomial', 'terms'), ('v1::Monomial', 'coefficient')],
+                       ids=[[('v1::Polynomial', 'terms'), ('v1::Monomial', 'ids')]]),
+}
+
+
+# ------------------------------------------------------------------------------------------------
+# variant-aware value expressions
+# ------------------------------------------------------------------------------------------------
+OKV = ('Ok', 'Some', 'Continue', '<ok>'); ERRV = ('Err', 'None', 'Break')
+OK_OF = 'std::result::Result::Ok'
+OK_PROJ = [{'dc': '<ok>'}, {'f': '0', 'of': OK_OF}]
+# equivalent ways of building the Ok variant by a call
+OK_CTOR_CALL = re.compile(r'^anyhow::Ok$|^anyhow::__private::Ok$')           # anyhow::Ok(x) ≡ Ok(x)
+SCALAR = ('f64', 'f32', 'u64', 'i64', 'usize', 'bool', 'i32', 'u32')
+OWNED_COLLECTION = re.compile(r'^(std::vec::Vec|std::collections::|std::string::String)')
+
+
+def _vclass(v):
+    if v in OKV: return 'ok'
+    if v in ERRV: return 'err'
+    return v
+
+
+def _split(p):
+    """projection list without derefs (references are followed transparently); None if it has an element not modelled here"""
+    out = []
+    for x in p:
+        if x == '*': continue
+        if isinstance(x, dict) and ('dc' in x or 'f' in x): out.append(x)
+        else: return None
+    return out
+
+
+def _fs(q):
+    return [(e['of'], e['f']) for e in q if 'f' in e]
+
+
+class VX:
+    """expression trees like templates.expr, plus:
+       * `X as V.0` picks the definitions of X that build variant V (agg Ok/Some/Continue, anyhow::Ok,
+         the Continue side of Try::branch); `from_residual` results are Err/None only;
+       * `?` is transparent:  (branch(X) as Continue).0  ≡  (X as Ok).0;
+       * a local with several definitions is ('phi', local, [definition exprs], [definition blocks]);
+         inside its own definitions the local is ('acc', local);
+       * `x op= y` through `&mut x` (f64 OpAssign traits) is the definition  x = x op y."""
+
+    def __init__(self, body):
+        self.b = body
+        self.callmap = {c.bb: c for c in body.calls}
+        self._defs = {}
+        # &mut aliases of whole locals
+        alias = {}
+        for bi, st in body.stmts():
+            rv = st['rv']
+            if rv['k'] == 'ref' and rv.get('mut') and not st['dst']['p'] and not rv['pl']['p']: alias[st['dst']['l']] = rv['pl']['l']
+        changed = True
+        while changed:
+            changed = False
+            for bi, st in body.stmts():
+                rv = st['rv']; d = st['dst']
+                if d['p'] or d['l'] in alias: continue
+                if rv['k'] == 'ref' and rv.get('mut') and rv['pl']['p'] == ['*'] and rv['pl']['l'] in alias:
+                    alias[d['l']] = alias[rv['pl']['l']]; changed = True
+                elif rv['k'] == 'use' and rv['ops'][0]['k'] in ('copy', 'move') and not rv['ops'][0]['pl']['p'] and rv['ops'][0]['pl']['l'] in alias:
+                    alias[d['l']] = alias[rv['ops'][0]['pl']['l']]; changed = True
+        self.alias = alias
+        self.opassign = {}
+        self.through = {}           # x -> [(bb, stmt)]: `*r = ..` with r a &mut alias of x (a captured accumulator after splicing)
+        escaped = set()
+        for bi, st in body.stmts():
+            d = st['dst']
+            if d['p'] == ['*'] and d['l'] in alias: self.through.setdefault(alias[d['l']], []).append((bi, st))
+        for r, x in alias.items():
+            for kind, bi, u in body.uses.get(r, ()):
+                if kind == 'call':
+                    m = T.ASSIGN_CALL.match(u.name)
+                    if m and u.arg_local(0) == r and not u.args[0]['pl']['p']:
+                        self.opassign.setdefault(x, []).append((u.bb, m.group(1), u.args[1]))
+                    elif all(a['pl']['p'][:1] == ['*'] for a in u.args if a['k'] in ('copy', 'move') and a['pl']['l'] == r): continue    # reads *r
+                    else: escaped.add(x)
+                elif kind == 'stmt':
+                    if u['dst']['l'] in alias and not u['dst']['p']: continue     # re-borrow / copy of the reference
+                    rv = u['rv']
+                    srcs = [o['pl'] for o in rv.get('ops', []) if o['k'] in ('copy', 'move') and o['pl']['l'] == r]
+                    if 'pl' in rv and rv['pl']['l'] == r: srcs.append(rv['pl'])
+                    if all(pl['p'][:1] == ['*'] for pl in srcs) and not (rv['k'] == 'ref' and rv.get('mut')): continue       # reads *r
+                    if rv['k'] == 'agg' and rv['adt'].startswith('closure:') and not u['dst']['p'] and not body.uses.get(u['dst']['l']): continue   # captured by a closure whose body has been spliced (the value is dead)
+                    escaped.add(x)
+        self.escaped = escaped      # locals mutably borrowed for something else than an OpAssign / a spliced closure
+
+    def opaque(self, l):
+        if l not in self.escaped: return False
+        ty = self.b.locals[l].strip()
+        return ty in SCALAR or bool(OWNED_COLLECTION.match(ty))
+
+    def defs(self, l):
+        if l in self._defs: return self._defs[l]
+        out = []
+        for k, bi, d in self.b.defs_of(l):
+            if d['dst']['p']: out = None; break         # partial writes are not modelled
+            out.append((k, bi, d))
+        if out is not None:
+            for bi, op, rhs in self.opassign.get(l, ()): out.append(('opassign', bi, (op, rhs)))
+            for bi, st in self.through.get(l, ()): out.append(('stmt', bi, st))
+        self._defs[l] = out
+        return out
+
+    def variant_of(self, d):
+        kind, bi, x = d
+        if kind == 'stmt':
+            rv = x['rv']
+            if rv['k'] == 'agg' and '::' in rv['adt'] and not rv['adt'].startswith('closure:'): return rv['adt'].split('::')[-1]
+            return None
+        if kind == 'call':
+            nm = T.strip_generics_tail(x['r'] or x['f'])
+            if T.FROM_RESIDUAL.search(nm): return 'Err'
+            if OK_CTOR_CALL.match(nm): return 'Ok'
+        return None
+
+    def may_hold(self, d, want):
+        v = self.variant_of(d)
+        if v is None: return True
+        return _vclass(v) == _vclass(want)
+
+    # ---- entry points
+    def op(self, operand, acc=frozenset(), depth=48, q=()):
+        k = operand['k']
+        if k in ('copy', 'move'):
+            return self.place(operand['pl']['l'], list(operand['pl']['p']) + list(q), acc, depth)
+        if k == 'const':
+            n = T.expr(self.b, operand, depth=6)
+            return ('proj', n, _fs(q)) if _fs(q) else n
+        return ('local', -1)
+
+    def place(self, l, p, acc, depth):
+        b = self.b
+        raw = fields_of_place({'l': l, 'p': p})
+        def unresolved():
+            return ('place', l, raw) if (raw or 1 <= l <= b.argc) else ('local', l)
+        if p[:1] == ['*'] and l in self.alias: return self.place(self.alias[l], p[1:], acc, depth)       # *r with r = &mut x
+        q = _split(p)
+        if q is None or depth <= 0 or 1 <= l <= b.argc: return unresolved()
+        if l in acc: return ('acc', l) if not q else unresolved()
+        ds = self.defs(l)
+        if not ds or self.opaque(l): return unresolved()
+        want = q[0]['dc'] if q and 'dc' in q[0] else None
+        cands = [d for d in ds if self.may_hold(d, want)] if want else ds
+        if not cands: return unresolved()
+        if len(cands) == 1: return self.apply(cands[0], q, l, acc, depth - 1)
+        nodes = [self.apply(d, q, l, acc | {l}, depth - 1) for d in cands]
+        if all(n == nodes[0] for n in nodes) and not has_acc(nodes[0], l): return nodes[0]      # the same value on every path
+        return ('phi', l, nodes, [d[1] for d in cands])
+
+    def collected(self, node):
+        """`let mut v = Vec::new(); loop { v.push(x) }; v.iter().sum()` (also what `.map(..).collect::<Vec<_>>()` + sum() is in the
+        normal form) ≡ `s = 0.0; loop { s += x }`: returned as the phi of that accumulator; None if `node` is not such a sum / product"""
+        n = peel(node)
+        if not (n[0] == 'call' and n[1] in ('sum', 'product') and 'Iterator' in n[2] and n[3]): return None
+        src = n[3][0]
+        while src[0] == 'call' and ITERISH.search(T.strip_generics_tail(src[2])) and src[3]: src = src[3][0]
+        if src[0] != 'local' or src[1] < 0: return None
+        L = src[1]; b = self.b
+        ds = b.defs_of(L)
+        if len(ds) != 1 or ds[0][0] != 'call' or not re.search(r'Vec::<.*>::(new|with_capacity)$', T.strip_generics_tail(ds[0][2]['r'] or ds[0][2]['f'])): return None
+        pushes = []
+        for r, x in self.alias.items():
+            if x != L: continue
+            for kind, bi, u in b.uses.get(r, ()):
+                if kind != 'call': continue
+                if u.item == 'push' and 'Vec' in u.name and u.arg_local(0) == r: pushes.append(u)
+                else: return None                       # the vector is changed in another way
+        if not pushes: return None
+        op = 'Add' if n[1] == 'sum' else 'Mul'
+        return ('phi', L, [('const', '0f64' if op == 'Add' else '1f64')] + [('bin', op, ('acc', L), self.op(u.args[1])) for u in pushes], [ds[0][1]] + [u.bb for u in pushes])
+
+    def apply(self, d, q, l, acc, depth):
+        kind, bi, x = d
+        fs = _fs(q)
+        def wrap(node):
+            if not fs: return node
+            if node[0] == 'place': return ('place', node[1], node[2] + fs)
+            if node[0] == 'proj': return ('proj', node[1], node[2] + fs)
+            return ('proj', node, fs)
+        if kind == 'opassign':
+            op, rhs = x
+            return wrap(('bin', op, self.place(l, [], acc, depth), self.op(rhs, acc, depth)))
+        if kind == 'call':
+            nm = x['r'] or x['f']; args = x['args']; tail = T.strip_generics_tail(nm)
+            if len(q) >= 2 and 'dc' in q[0] and 'f' in q[1] and args:
+                v = q[0]['dc']
+                if T.TRY_BRANCH.search(nm) and v == 'Continue':
+                    return self.op(args[0], acc, depth, OK_PROJ + q[2:])          # `?` is transparent
+                if OK_CTOR_CALL.match(tail) and _vclass(v) == 'ok':
+                    return self.op(args[0], acc, depth, q[2:])
+            c = self.callmap.get(bi)
+            node = ('call', c.item if c else tail.split('::')[-1], nm, [self.op(a, acc, depth) for a in args], bi)
+            return wrap(node)
+        rv = x['rv']; kk = rv['k']
+        if kk == 'use': return self.op(rv['ops'][0], acc, depth, q)
+        if kk == 'ref': return self.place(rv['pl']['l'], list(rv['pl']['p']) + q, acc, depth)
+        if kk == 'agg':
+            ops = rv['ops']; names = rv.get('fields') or []
+            if len(q) >= 2 and 'dc' in q[0] and 'f' in q[1]:
+                f = q[1]['f']
+                i = names.index(f) if f in names else (int(f) if f.isdigit() else -1)
+                if 0 <= i < len(ops): return self.op(ops[i], acc, depth, q[2:])
+            elif q and 'f' in q[0] and not rv['adt'].startswith('closure:'):
+                f = q[0]['f']
+                i = names.index(f) if f in names else (int(f) if f.isdigit() else -1)
+                if 0 <= i < len(ops): return self.op(ops[i], acc, depth, q[1:])
+            return wrap(('agg', rv['adt'], [self.op(o, acc, depth) for o in ops]))
+        if kk == 'bin': return wrap(('bin', rv['op'], self.op(rv['ops'][0], acc, depth), self.op(rv['ops'][1], acc, depth)))
+        if kk == 'un': return wrap(('un', rv['op'], self.op(rv['ops'][0], acc, depth)))
+        if kk == 'cast': return wrap(('cast', rv['to'], self.op(rv['ops'][0], acc, depth)))
+        if kk == 'discr': return wrap(('discr', self.place(rv['pl']['l'], rv['pl']['p'], acc, depth)))
+        return ('place', l, fs) if fs else ('local', l)
+
+
+def is_item(e):
+    """the current item of a `for` loop: next(it) as Some.0 ..."""
+    return e[0] == 'proj' and e[1][0] == 'call' and e[1][1] == 'next' and 'Iterator' in e[1][2]
+
+
+def peel(e):
+    """strip transparent wrappers (clone/into/deref/`?`/with_context/..., Ok/Some/Continue payloads) but keep loop items"""
+    while True:
+        if e[0] == 'proj' and not is_item(e) and all(T.WRAPPER_OWNER.search(a) for a, f in e[2]): e = e[1]; continue
+        if e[0] == 'call' and T.TRANSPARENT.search(T.strip_generics_tail(e[2])) and e[3]: e = e[3][0]; continue
+        return e
+
+
+def has_acc(n, l):
+    return any(x[0] == 'acc' and x[1] == l for x in T.expr_walk(n))
+
+
+def recurrence(node, vx=None):
+    """accumulator: phi(l, [.., op(acc, x), ..])  ->  (l, inits [(expr, bb)], updates [(op, x, bb)]); else None.
+    `acc op x` and (commutative ops) `x op acc` are the same update."""
+    n = peel(node)
+    if vx is not None and n[0] == 'call': n = vx.collected(n) or n
+    if n[0] != 'phi': return None
+    l = n[1]; inits = []; ups = []
+    for x, bi in zip(n[2], n[3]):
+        if not has_acc(x, l): inits.append((x, bi)); continue
+        a = T.arith(x)
+        if a[0] == 'bin' and a[2] == ('acc', l) and not has_acc(a[3], l): ups.append((a[1], a[3], bi))
+        elif a[0] == 'bin' and a[3] == ('acc', l) and not has_acc(a[2], l) and a[1] in ('Add', 'Mul'): ups.append((a[1], a[2], bi))
+        elif a == ('acc', l): continue                      # x = x
+        else: ups.append(('?', x, bi))
+    if not ups: return None
+    return l, inits, ups
+
+
+def product_factors(node, via=None, vx=None):
+    """leaves of a product as (leaf, block of the `*=` update it enters through | None); a product
+    accumulator  p = init; loop { p *= x }  is expanded into init × x"""
+    out = []
+    for leaf in T.flatten(node, 'Mul'):
+        r = recurrence(leaf, vx)
+        if r is not None:
+            l, inits, ups = r
+            if len(inits) == 1 and all(op == 'Mul' for op, x, bi in ups):
+                out += product_factors(inits[0][0], via, vx)
+                for op, x, bi in ups: out += product_factors(x, bi, vx)
+            else:
+                out.append((('bad-accumulator', [op for op, x, bi in ups]), via))
+            continue
+        if leaf == ('const', '1f64'): continue             # p = 1.0; p *= x; .. c * p : the neutral start of a product
+        out.append((leaf, via))
+    return out
+
+
+# ------------------------------------------------------------------------------------------------
+# path-sensitive error flow
+# ------------------------------------------------------------------------------------------------
+DISCR = {'Ok': 0, 'Err': 1, 'None': 0, 'Some': 1, 'Continue': 0, 'Break': 1}
+
+
+def reach_v(body, starts, stop=()):
+    """forward reachability that knows which variant a Result/Option/ControlFlow local holds on the
+    path (built by an aggregate, `from_residual`, anyhow::Ok, Try::branch of a known value) and
+    follows a switch on its discriminant only into the matching arm.  Needed where a `?` inside an
+    inlined helper / spliced closure hands its Err to an outer `?`."""
+    seen = set(); out = set(); work = [(s, frozenset()) for s in starts if s not in stop]
+    while work:
+        bi, env = work.pop()
+        if (bi, env) in seen: continue
+        seen.add((bi, env)); out.add(bi)
+        if len(seen) > 20000: return body.reach(starts, stop)
+        e = dict(env); blk = body.blocks[bi]
+        for st in blk['st']:
+            if 'dst' not in st: continue
+            d = st['dst']; rv = st['rv']
+            if d['p']:
+                e.pop(d['l'], None); continue
+            val = None
+            if rv['k'] == 'agg' and rv['adt'].split('::')[-1] in DISCR and '::' in rv['adt']: val = rv['adt'].split('::')[-1]
+            elif rv['k'] == 'use' and rv['ops'][0]['k'] in ('copy', 'move') and not rv['ops'][0]['pl']['p']: val = e.get(rv['ops'][0]['pl']['l'])
+            elif rv['k'] == 'discr' and not rv['pl']['p'] and isinstance(e.get(rv['pl']['l']), str): val = ('d', DISCR[e[rv['pl']['l']]])
+            if val is None: e.pop(d['l'], None)
+            else: e[d['l']] = val
+        t = blk['term']; succs = body.succ(bi)
+        if t['k'] == 'call':
+            d = t['dst']; nm = t['r'] or t['f']; tail = T.strip_generics_tail(nm); val = None
+            a0 = t['args'][0] if t['args'] else None
+            src = e.get(a0['pl']['l']) if a0 and a0['k'] in ('copy', 'move') and not a0['pl']['p'] else None
+            if T.FROM_RESIDUAL.search(tail): val = 'None' if nm.lstrip('<').startswith('std::option::Option') else 'Err'
+            elif OK_CTOR_CALL.match(tail): val = 'Ok'
+            elif T.TRY_BRANCH.search(nm) and isinstance(src, str): val = 'Continue' if _vclass(src) == 'ok' else 'Break'
+            if d['p'] or val is None: e.pop(d['l'], None)
+            else: e[d['l']] = val
+        elif t['k'] == 'switch' and t['d']['k'] != 'const' and not t['d']['pl']['p']:
+            v = e.get(t['d']['pl']['l'])
+            if isinstance(v, tuple):
+                m = {val: tg for val, tg in t['ts']}
+                succs = [m.get(v[1], t['else'])]
+        fe = frozenset(e.items())
+        for s in succs:
+            if s not in stop and not body.blocks[s]['cleanup']: work.append((s, fe))
+    return out
+
+
+def must_pass_v(body, start, targets, via):
+    """templates.must_pass on reach_v: every path from `start` to a block in `targets` passes a block in `via`"""
+    return not (reach_v(body, [start], stop=set(via)) & set(targets))
+
+
+def errflow_v(body, local, depth=0, none_variant=0):
+    """templates.errflow with path-sensitive reachability (reach_v) on the error side"""
+    res = []
+    if depth > 6: return [('bad', 'adaptor chain too deep')]
+    if local == 0: return [('ok', 'returned')]
+    oks = body.strict_ok_exits()
+    uses = body.uses.get(local, ())
+    if not uses: return [('bad', 'result unused (dropped)')]
+    for kind, bi, x in uses:
+        if kind == 'call':
+            name = x.name
+            if T.TRY_BRANCH.search(name):
+                arms = T.try_arms(body, local)
+                if arms:
+                    if reach_v(body, [arms[1]]) & oks: res.append(('bad', 'Break arm of ? reaches an Ok-exit'))
+                    else: res.append(('ok', '?'))
+                else: res.append(('bad', 'Try::branch without switch'))
+            elif T.ERR_ADAPTORS.search(name):
+                res += [(k, '%s -> %s' % (x.item, h)) for k, h in errflow_v(body, x.dst['l'], depth + 1, none_variant)]
+            elif T.ERR_BAD.search(name): res.append(('bad', 'consumed by ' + x.item))
+            else: res.append(('bad', 'passed to ' + name[:60]))
+        elif kind == 'stmt':
+            rv = x['rv']
+            if rv['k'] == 'discr':
+                for k3, b3, sw in body.uses.get(x['dst']['l'], ()):
+                    if k3 != 'switch': continue
+                    m = {v: t for v, t in sw['ts']}
+                    if reach_v(body, [m.get(none_variant, sw['else'])]) & oks: res.append(('bad', 'None/Err side of match reaches an Ok-exit'))
+                    else: res.append(('ok', 'match: None/Err side reaches only Err-exits'))
+            elif rv['k'] == 'use' and x['dst']['p'] == []:
+                o = rv['ops'][0]
+                if o['k'] in ('copy', 'move') and o['pl']['l'] == local and o['pl']['p'] == []:
+                    if x['dst']['l'] == 0: res.append(('ok', 'returned'))
+                    else: res += errflow_v(body, x['dst']['l'], depth + 1, none_variant)
+            elif rv['k'] == 'ref':
+                res += errflow_v(body, x['dst']['l'], depth + 1, none_variant)
+    if not res: res.append(('bad', 'no recognised consumer'))
+    return res
+
+
+def errflow_bad(body, calls):
+    out = []
+    for c in calls:
+        bad = sorted({h for k, h in errflow_v(body, c.dst['l']) if k == 'bad'})
+        if bad: out.append((c, '; '.join(bad)))
+    return out
+
+
+def decide(ctx, rule, template, body, problems, site=None):
+    """one rule instance: ok, or one violation per problem [(detail, site)]"""
+    if not problems: ctx.ok(rule, template, site or body.site())
+    for detail, st in problems: ctx.bad(rule, template, body.name, detail, st or body.site())
+    return not problems
+
+
+# ------------------------------------------------------------------------------------------------
+# loops and where their items come from
+# ------------------------------------------------------------------------------------------------
+# calls that give a view of the same elements in the same order (≡ iterating the collection itself)
+ITERISH = re.compile(r'::(into_iter|iter|deref|as_ref|as_slice|borrow|by_ref|copied|cloned)$')
+
+
+def components(n):
+    """structure of an iterator expression:
+         ('src', expr)            the elements of a place, through ITERISH views only
+         ('zip', [components])    itertools::multizip((a, b, ..)) ≡ izip!(a, b, ..) ≡ a.zip(b) (nested: ((a, b), c))
+         ('index',)               the counter of enumerate()
+         ('other', expr)          anything else (filtered / cloned / re-ordered / derived collection)"""
+    while True:
+        if n[0] == 'call':
+            nm = T.strip_generics_tail(n[2])
+            if nm.endswith('multizip') and n[3] and n[3][0][0] == 'agg' and n[3][0][1] == 'tuple': return ('zip', [components(x) for x in n[3][0][2]])
+            if n[1] == 'zip' and 'Iterator' in n[2] and len(n[3]) == 2: return ('zip', [components(n[3][0]), components(n[3][1])])
+            if n[1] == 'enumerate' and 'Iterator' in n[2] and n[3]: return ('zip', [('index',), components(n[3][0])])
+            if ITERISH.search(nm) and n[3]: n = n[3][0]; continue
+            return ('other', n)
+        if n[0] == 'place' or is_item(n): return ('src', n)
+        return ('other', n)
+
+
+def comp_leaves(c):
+    if c[0] == 'zip':
+        for x in c[1]: yield from comp_leaves(x)
+    else: yield c
+
+
+class Kernel:
+    def __init__(self, ctx, body):
+        self.ctx = ctx; self.body = body; self.vx = VX(body)
+        self.for_loops = T.for_loops(body)                       # (next_call, header, some_bb, none_bb, blocks)
+        self.by_next = {lo[0].bb: lo for lo in self.for_loops}
+        self.by_header = {lo[1]: lo for lo in self.for_loops}
+        self.nat = body.loops()
+        self._comp = {}
+
+    def innermost(self, bb):
+        c = [(h, bl) for h, bl in self.nat.items() if bb in bl]
+        return min(c, key=lambda x: len(x[1]))[0] if c else None
+
+    def comp_of(self, lo):
+        k = lo[0].bb
+        if k not in self._comp: self._comp[k] = components(self.vx.op(lo[0].args[0]))
+        return self._comp[k]
+
+    def msg_path(self, node, depth=0):
+        """where in the message a value is read: (field path from self, [next-call blocks of the loops crossed]); None = not (only) from the message"""
+        n = peel(node)
+        if n[0] == 'call' and n[1] == 'next' and 'Iterator' in n[2]: n = ('proj', n, [('std::option::Option::Some', '0')])
+        if n[0] == 'place' and n[1] == 1: return list(n[2]), []
+        if is_item(n) and depth < 4:
+            fs = list(n[2])
+            if not fs or not fs[0][0].endswith('Option::Some'): return None
+            fs = fs[1:]
+            lo = self.by_next.get(n[1][4])
+            if lo is None: return None
+            c = self.comp_of(lo)
+            while c[0] == 'zip':
+                if not fs or fs[0][0] != 'tuple' or not fs[0][1].isdigit() or int(fs[0][1]) >= len(c[1]): return None
+                c = c[1][int(fs[0][1])]; fs = fs[1:]
+            if c[0] != 'src': return None
+            base = self.msg_path(c[1], depth + 1)
+            if base is None: return None
+            return base[0] + fs, base[1] + [n[1][4]]
+        return None
+
+    def every_iteration(self, chain, sites):
+        """reasons why `sites` (blocks) are NOT passed once per element of the nested lists crossed by the loops `chain` (outermost first)"""
+        body = self.body; oks = body.strict_ok_exits(); why = []
+        los = [self.by_next.get(nb) for nb in chain]
+        if any(lo is None for lo in los): return ['loop not found']
+        if not los:
+            if not any(all(body.dominates(s, e) for e in oks) for s in sites): why.append('not on every path to the Ok-exit')
+            return why
+        L1 = los[0]
+        if not all(body.dominates(L1[1], e) for e in oks): why.append('the loop does not dominate the Ok-exit')
+        if not must_pass_v(body, L1[2], oks, {L1[1]}): why.append('the loop can be left before the last element without an error')
+        for Lo, Li in zip(los, los[1:]):
+            if Li[1] not in Lo[4]: why.append('loops are not nested'); continue
+            if not must_pass_v(body, Lo[2], {Lo[1]}, {Li[1]}): why.append('the inner loop is skipped on some path')
+            if not must_pass_v(body, Li[2], {Lo[1]}, {Li[1]}): why.append('the inner loop can be left before its last element')
+        Lk = los[-1]
+        if not must_pass_v(body, Lk[2], {Lk[1]}, set(sites)): why.append('a path through the loop body skips it')
+        return why
+
+
+def same_path(got, want):
+    return got is not None and len(got) == len(want) and all(f == wf and (a == wa or a.endswith('::' + wa)) for (a, f), (wa, wf) in zip(got, want))
+
+
+def live_closures(ctx, body, depth=0):
+    """closure bodies whose value is still used in `body` (a spliced closure leaves a dead aggregate behind), transitively.
+    Not ctx.F.closures_of: the normal form also drops closures from that list which it looked at but then left in place."""
+    out = []
+    for bi, st, path in body.closures_created():
+        cb = ctx.F.bodies.get(path)
+        if cb is None or not body.uses.get(st['dst']['l']) or depth > 3: continue
+        out.append(cb); out += live_closures(ctx, cb, depth + 1)
+    return out
 
 
 def state_lookups(ctx, body, state_param=2):
@@ -18,229 +532,319 @@ def state_lookups(ctx, body, state_param=2):
     return out
 
 
-def is_lookup_leaf(body, e, lookups):
-    e = T.strip_wrappers(e)
-    return e[0] == 'call' and e[1] == 'get' and re.search(STATE_GET, e[2])
+def is_lookup(e):
+    e = peel(e)
+    return e[0] == 'call' and e[1] == 'get' and bool(re.search(STATE_GET, e[2])) and len(e[3]) == 2
 
 
-def lookup_key_fields(e):
-    e = T.strip_wrappers(e)
-    return T.expr_fields(e[3][1]) + [('tuple-leaf', T.expr_str(e[3][1]))]
-
-
-def returned_pair(ctx, rule, body):
-    """(value operand, set operand) of the `Ok((value, set))` exits"""
+def returned_pair(body):
+    """(exit block, value operand, set operand) of the `Ok((value, set))` exits"""
     out = []
     for e, k, st in body.ret_assignments():
         if k == 'ok':
             op = st['rv']['ops'][0]
             if op['k'] in ('copy', 'move'):
-                for k2, b2, d in body.defs_of(op['pl']['l']):
+                l = op['pl']['l']
+                for _ in range(4):          # through plain copies of the pair
+                    ds = body.defs_of(l)
+                    if len(ds) == 1 and ds[0][0] == 'stmt' and ds[0][2]['rv']['k'] == 'use' and ds[0][2]['rv']['ops'][0]['k'] in ('copy', 'move') and not ds[0][2]['rv']['ops'][0]['pl']['p'] and not ds[0][2]['dst']['p']:
+                        l = ds[0][2]['rv']['ops'][0]['pl']['l']
+                    else: break
+                for k2, b2, d in body.defs_of(l):
                     if k2 == 'stmt' and d['rv']['k'] == 'agg' and d['rv']['adt'] == 'tuple' and len(d['rv']['ops']) == 2:
                         out.append((e, d['rv']['ops'][0], d['rv']['ops'][1]))
     return out
 
 
-def acc_local(body, operand):
-    """the accumulator local behind an operand (through plain copies)"""
-    if operand['k'] not in ('copy', 'move'): return None
-    l = operand['pl']['l']
-    for _ in range(4):
-        ds = [d for d in body.defs_of(l) if d[0] == 'stmt' and not d[2]['dst']['p']]
-        if len(ds) == 1 and len(body.defs_of(l)) == 1 and ds[0][2]['rv']['k'] == 'use' and ds[0][2]['rv']['ops'][0]['k'] in ('copy', 'move') and not ds[0][2]['rv']['ops'][0]['pl']['p']:
-            l = ds[0][2]['rv']['ops'][0]['pl']['l']
-        else: break
-    return l
-
-
-def product_factors(body, e, depth=0):
-    """leaves of a product; an accumulator local is expanded into init * updates"""
-    out = []
-    for leaf in T.flatten(e, 'Mul'):
-        if leaf[0] in ('local', 'place') and not (leaf[0] == 'place' and leaf[2]) and depth < 2:
-            l = leaf[1]
-            if body.locals[l] == 'f64' and len(body.defs_of(l)) + 0 >= 1:
-                init, ups = T.accumulator(body, l)
-                if ups and all(op == 'Mul' for op, side, x, bi in ups) and len(init) == 1:
-                    out += product_factors(body, init[0][0], depth + 1)
-                    for op, side, x, bi in ups: out += product_factors(body, x, depth + 1)
-                    continue
-                if ups:
-                    out.append(('bad-accumulator', [op for op, s, x, b in ups])); continue
-        out.append(leaf)
-    return out
-
-
-def kernel_rules(ctx, ty, coef_fields, id_fields, init_kind):
-    """ty: self type; coef_fields: {(adt, field)} of the coefficient; id_fields: id fields that must each be looked up"""
-    R = 'C01'
-    short = ty.split('::')[-1]
+# ------------------------------------------------------------------------------------------------
+# the three kernels
+# ------------------------------------------------------------------------------------------------
+def kernel_rules(ctx, short):
+    spec = KERNELS[short]; ty = spec['ty']; R = 'C01'
     body = ctx.method(R + '.anchor/%s::evaluate' % short, ty, 'evaluate', trait='Evaluate')
     if body is None: return
+    K = Kernel(ctx, body); vx = K.vx
+    fn = body.name
+
+    # ---- C01.lookup: a missing variable is an error, for every lookup in the given state
     lookups = state_lookups(ctx, body)
-    # ---- C01.lookup: a missing variable is an error
-    ctx.check(len(lookups) == len(id_fields), R + '.lookup/%s/count' % short, 'T-ERRFLOW', body.name, 'expected %d state lookups, found %d' % (len(id_fields), len(lookups)), body.site())
-    errflow_calls(ctx, R + '.lookup/%s/missing-is-error' % short, body, lookups, 'state lookup')
-    for c in lookups:
-        ctx.check(T.access_path(body, c.args[0])[1] == 2, R + '.lookup/%s/state' % short, 'T-CARRY', body.name, 'lookup is not in the given state', body.site(c.bb))
-    pairs = returned_pair(ctx, R, body)
-    ctx.check(len(pairs) == 1, R + '.fields/%s/result' % short, 'T-CARRY', body.name, 'expected one Ok((value, ids)) exit, found %d' % len(pairs), body.site())
-    if len(pairs) != 1: return
+    closures = live_closures(ctx, body)
+    hidden = [(cb, c) for cb in closures for c in state_lookups(ctx, cb)]
+    decide(ctx, R + '.lookup/%s/missing-is-error' % short, 'T-ERRFLOW', body,
+           [('state lookup: ' + why, body.site(c.bb)) for c, why in errflow_bad(body, lookups)] +
+           [('state lookup: ' + why, cb.site(c.bb)) for cb in closures for c, why in errflow_bad(cb, state_lookups(ctx, cb))] +
+           ([] if lookups or hidden else [('no state lookup in the evaluator', None)]))
+    decide(ctx, R + '.lookup/%s/state' % short, 'T-CARRY', body,
+           [('lookup is not in the given state', body.site(c.bb)) for c in lookups if T.access_path(body, c.args[0])[1] != 2])
+    # lookups hidden in closures that the normal form could not splice cannot be followed: fail closed (but see weak_kernel)
+    def visible_rule():
+        decide(ctx, R + '.lookup/%s/visible' % short, 'T-ERRFLOW', body,
+               [('a state lookup sits in closure %s whose use is not recognised' % cb.name.split('::')[-1], cb.site(c.bb)) for cb, c in hidden])
+
+    pairs = returned_pair(body)
+    ctx.check(len(pairs) == 1, R + '.fields/%s/result' % short, 'T-CARRY', fn, 'expected one Ok((value, ids)) exit, found %d' % len(pairs), body.site())
+    if len(pairs) != 1:
+        visible_rule(); return
     exit_bb, vop, sop = pairs[0]
-    # ---- the term loop
-    loops = [lo for lo in T.for_loops(body) if any(c.bb in lo[4] for c in lookups)]
-    outer = [lo for lo in loops if not any(set(lo[4]) < set(o[4]) for o in loops)]
-    ctx.check(len(outer) == 1, R + '.every-term/%s/loop' % short, 'T-LOOPMUST', body.name, 'expected one term loop, found %d' % len(outer), body.site())
-    if len(outer) != 1: return
-    lo = outer[0]; nextc, header, some_bb, none_bb, blocks = lo
-    si = ctx.S.slice_operand(body, nextc.args[0])
-    restr = sorted({x.item for x in si.call_objs if x.item in RESTRICTING and 'Iterator' in (x.trait or '')})
-    ctx.check(not restr, R + '.every-term/%s/all-terms' % short, 'T-LOOPMUST', body.name, 'term iterator is restricted by %s' % restr, body.site(nextc.bb))
-    ctx.check(all(body.dominates(header, e) for e in body.strict_ok_exits()), R + '.every-term/%s/dominates' % short, 'T-MUSTCALL', body.name, 'term loop does not dominate the Ok-exit', body.site(nextc.bb))
-    # ---- the loops iterate the message's own term / id lists directly (no filtered, de-duplicated or re-ordered copy)
-    ITERISH = re.compile(r'::(into_iter|iter|deref|as_ref|as_slice|borrow)(::<.*>)?$')
-    next_dsts = {l[0].dst['l'] for l in loops}
-    for l in loops:
-        srcs = [l[0].args[0]]
-        # multizip / zip of several iterators: check each component
-        sx = T.expr(body, l[0].args[0], depth=10)
-        zips = [x for x in T.expr_walk(sx) if x[0] == 'call' and re.search(r'multizip|::zip', x[2])]
-        ok_src = True; why = ''
-        if zips:
-            comps = []
-            for z in zips:
-                for a in z[3]:
-                    if a[0] == 'agg' and a[1] == 'tuple': comps += a[2]
-                    else: comps.append(a)
-            for cx in comps:
-                # each component must be <field>.iter() of self
-                calls_ = [x for x in T.expr_walk(cx) if x[0] == 'call']
-                if any(not ITERISH.search(T.strip_generics_tail(x[2])) for x in calls_) or not any(x[0] == 'place' and x[1] == 1 for x in T.expr_walk(cx)):
-                    ok_src = False; why = T.expr_str(cx)
-        else:
-            fs_, root_, calls_ = T.access_path(body, l[0].args[0], transparent=ITERISH)
-            last_ok = (not calls_) or all(ITERISH.search(T.strip_generics_tail(x)) or x.endswith('::next') for x in calls_)
-            ok_src = last_ok and (root_ == 1 or root_ in next_dsts) and bool(fs_)
-            why = 'path %s via %s' % (fs_, [x.split('::')[-1] for x in calls_])
-        ctx.check(ok_src, R + '.every-term/%s/iterates-message-directly' % short, 'T-LOOPMUST', body.name,
-                  'a loop iterates a derived collection instead of the message\'s own list (%s)' % why, body.site(l[0].bb))
-    # every arithmetic update of the value happens exactly once per looked-up id: in the lookup's own loop
-    def innermost(bb):
-        ls = [l for l in T.for_loops(body) if bb in l[4]]
-        allh = [(h, bl) for h, bl in body.loops().items() if bb in bl]
-        return min(allh, key=lambda x: len(x[1]))[0] if allh else None
-    for c in lookups:
-        lh = innermost(c.bb)
-        for c2 in body.calls:
-            if T.ASSIGN_CALL.match(c2.name):
-                ex2 = T.expr(body, c2.args[1])
-                if any(x[0] == 'call' and x[1] == 'get' and len(x) > 4 and x[4] == c.bb for x in T.expr_walk(ex2)) or (c2.bb in body.reach([c.bb]) and innermost(c2.bb) != lh and lh in [h for h, bl in body.loops().items() if c2.bb in bl]):
-                    ctx.check(innermost(c2.bb) == lh, R + '.fields/%s/one-factor-per-id' % short, 'T-LOOPMUST', body.name,
-                              'a looked-up value is multiplied in inside a nested loop (not exactly once per id)', body.site(c2.bb))
-    # ---- accumulator shape: sum = init; sum += coefficient * Π lookup(id)
-    sum_l = acc_local(body, vop)
-    init, ups = T.accumulator(body, sum_l) if sum_l is not None else ([], [])
-    ctx.check(len(ups) == 1 and ups[0][0] == 'Add', R + '.fields/%s/sum-is-added' % short, 'T-BRANCHFX', body.name,
-              'the result is not accumulated with exactly one `sum += term` (found %s)' % [(op) for op, s, x, b in ups], body.site())
-    # init
-    init_ok = False; init_descr = [T.expr_str(x) for x, bi in init]
-    if init_kind == 'constant':
-        init_ok = len(init) == 1 and T.expr_fields(init[0][0]) == [('v1::Linear', 'constant')]
-    elif init_kind == 'zero':
-        init_ok = len(init) == 1 and init[0][0] == ('const', '0f64')
-    elif init_kind == 'linear-part':
-        # (sum, ids) = if let Some(linear) = &self.linear { linear.evaluate(state)? } else { (0.0, {}) }
-        ex = T.expr(body, {'k': 'copy', 'pl': {'l': sum_l, 'p': []}}, depth=3)
-        tl = None
-        for x, bi in init:
-            if x[0] in ('place', 'proj'):
-                tl = x
-        pair_l = None
-        for k2, b2, d in body.defs_of(sum_l):
-            if k2 == 'stmt' and d['rv']['k'] == 'use' and d['rv']['ops'][0]['k'] in ('copy', 'move') and fields_of_place(d['rv']['ops'][0]['pl']) == [('tuple', '0')]:
-                pair_l = d['rv']['ops'][0]['pl']['l']
-        some_ok = none_ok = False
-        if pair_l is not None:
-            tests = option_field_tests(body, 'v1::Quadratic', 'linear')
-            for k2, b2, d in body.defs_of(pair_l):
-                if k2 == 'stmt' and d['rv']['k'] == 'agg' and d['rv']['adt'] == 'tuple':
-                    o0 = d['rv']['ops'][0]
-                    if o0['k'] == 'const' and o0['v'] == '0f64' and any(b2 in body.reach([nn], stop={header}) and b2 not in body.reach([sm], stop={header}) for sb, sm, nn in tests):
-                        none_ok = True
-                        # an absent linear part is not an error
-                        ctx.check(bool(body.reach([b2]) & body.strict_ok_exits()), R + '.linear-none/ok', 'T-GUARD', body.name, 'absent linear part leads to an error', body.site(b2))
-                elif k2 == 'stmt' and d['rv']['k'] == 'use':
-                    ex2 = T.expr(body, d['rv']['ops'][0], depth=10)
-                    ev = [x for x in T.expr_walk(ex2) if x[0] == 'call' and x[1] == 'evaluate' and 'v1::Linear as evaluate::Evaluate' in x[2]]
-                    if ev and ('v1::Quadratic', 'linear') in T.expr_fields(ev[0][3][0]) and T.strip_wrappers(ev[0][3][1]) == ('place', 2, []): some_ok = True
-        init_ok = some_ok and none_ok
-        ctx.check(none_ok, R + '.linear-none/zero', 'T-CONST', body.name, 'absent linear part does not contribute (0, {})', body.site())
-        le = [c for c in body.calls if c.item == 'evaluate' and 'v1::Linear as evaluate::Evaluate' in c.name]
-        errflow_calls(ctx, R + '.fields/%s/linear-error' % short, body, le, 'linear part evaluation')
-    ctx.check(init_ok, R + '.fields/%s/init' % short, 'T-CARRY', body.name, 'accumulator does not start from %s (found %s)' % (init_kind, init_descr), body.site())
-    # the term
-    if len(ups) == 1:
-        op, side, term, ubi = ups[0]
-        facs = product_factors(body, term)
-        coefs = [f for f in facs if any(cf in T.expr_fields(f) for cf in coef_fields) or (short == 'Quadratic' and zip_field(ctx, body, nextc, f) == 'values')]
-        looks = [f for f in facs if is_lookup_leaf(body, f, lookups)]
-        other = [f for f in facs if f not in coefs and f not in looks]
-        ctx.check(len(coefs) == 1 and not other and len(looks) == len(id_fields), R + '.fields/%s/term-is-coefficient-times-values' % short, 'T-BRANCHFX', body.name,
-                  'term is not coefficient × Π value(id): factors = %s' % [T.expr_str(f) for f in facs], body.site(ubi), factors=[T.expr_str(f) for f in facs])
-        # each lookup is keyed by an id of this term
-        keys = []
-        for f in looks:
-            kx = T.strip_wrappers(f)[3][1]
-            kf = T.expr_fields(kx)
-            zf = zip_field(ctx, body, nextc, kx) if short == 'Quadratic' else None
-            keys.append(zf or [x for x in kf if x in id_fields])
-        flat = [k if isinstance(k, str) else (k[0][1] if k else None) for k in keys]
-        want = sorted(f for a, f in id_fields)
-        ctx.check(sorted(x for x in flat if x) == want, R + '.fields/%s/lookup-keys' % short, 'T-CARRY', body.name, 'values are looked up under %s, expected %s' % (flat, want), body.site(ubi))
-        # accumulation happens for every term
-        ctx.check(T.must_pass(body, some_bb, {header}, {ubi}), R + '.every-term/%s/accumulated' % short, 'T-LOOPMUST', body.name, 'a term can be skipped without being added', body.site(ubi))
+
+    # ---- the value: init + Σ term
+    value = vx.op(vop)
+    # `sum = init; .. ; Ok((sum, ids))`  ≡  `sum = 0.0; .. ; Ok((sum + init, ids))`: summands added at the exit count as part of the start value
+    leaves = T.flatten(value, 'Add')
+    recs = [(x, recurrence(x, vx)) for x in leaves]
+    rec = [r for x, r in recs if r is not None][0] if len([1 for x, r in recs if r is not None]) == 1 else None
+    if rec is not None:
+        rec = (rec[0], rec[1] + [(x, exit_bb) for x, r in recs if r is None], rec[2])
+    else:
+        un = unopened_consumers(value)
+        if un and not any(r is not None for x, r in recs):
+            # the sum is formed inside an iterator consumer that the normal form leaves closed (e.g. `.map(..).sum::<Result<f64>>()`):
+            # the precise rules cannot be decided; weaker necessary conditions of the same clauses are
+            weak_kernel(ctx, K, short, spec, vop, sop, un[0], hidden); return
+    visible_rule()
+    ups = rec[2] if rec else []
+    excl = all(u2[2] not in body.reach(body.succ(u1[2]), stop={K.innermost(u1[2])}) for u1 in ups for u2 in ups if u1 is not u2 and K.innermost(u1[2]) is not None)
+    sum_ok = bool(ups) and all(op == 'Add' for op, x, bi in ups) and excl
+    ctx.check(sum_ok, R + '.fields/%s/sum-is-added' % short, 'T-BRANCHFX', fn,
+              'the result is not accumulated by `sum += term` once per term (found %s%s)' % ([op for op, x, bi in ups] if rec else T.expr_str(peel(value)), '' if excl else ', several updates on one path'), body.site())
+    if not rec: return
+    acc_l, inits, ups = rec
+    heads = {K.innermost(bi) for op, x, bi in ups}
+    Lp = K.by_header.get(list(heads)[0]) if len(heads) == 1 else None
+    ctx.check(Lp is not None, R + '.every-term/%s/loop' % short, 'T-LOOPMUST', fn, 'the updates of the sum are not in one `for`-like loop over the terms (loop headers %s)' % sorted(heads, key=str), body.site(ups[0][2]))
+    if Lp is None: return
+    term_loop = Lp[0].bb
+
+    # ---- every term: the term loop iterates the message's own lists, completely; the update lies on every path
+    why = K.every_iteration([term_loop], [bi for op, x, bi in ups])
+    ctx.check(not [w for w in why if 'dominate' in w], R + '.every-term/%s/dominates' % short, 'T-MUSTCALL', fn, 'term loop does not dominate the Ok-exit', body.site(Lp[0].bb))
+    ctx.check(not [w for w in why if 'left before' in w], R + '.every-term/%s/all-terms' % short, 'T-LOOPMUST', fn, 'the term loop can end before the last term without an error', body.site(Lp[0].bb))
+    ctx.check(not [w for w in why if 'skips' in w], R + '.every-term/%s/accumulated' % short, 'T-LOOPMUST', fn, 'a term can be skipped without being added', body.site(ups[0][2]))
+
+    # ---- init
+    init_check(ctx, K, short, spec['init'], inits, Lp)
+
+    # ---- the term: coefficient × Π state[id]
+    loops_used = {term_loop}
+    coefs = []; looks = []; other = []
+    for op, term, ubi in ups:
+        for f, via in product_factors(term, None, vx):
+            if f[0] == 'bad-accumulator': other.append((f, via)); continue
+            if is_lookup(f): looks.append((peel(f), via, ubi)); continue
+            mp = K.msg_path(f)
+            if mp is not None and same_path(mp[0], spec['coef']): coefs.append((f, via, ubi, mp))
+            else: other.append((f, via))
+    nups = len(ups)
+    facs = ['%s' % T.expr_str(f[0]) if f[0][0] != 'bad-accumulator' else 'accumulator updated by %s' % f[0][1] for f in coefs + looks + other]
+    ctx.check(len(coefs) == nups and not other and len(looks) == nups * len(spec['ids']), R + '.fields/%s/term-is-coefficient-times-values' % short, 'T-BRANCHFX', fn,
+              'term is not coefficient × Π value(id): factors = %s' % facs, body.site(ups[0][2]), factors=facs)
+    # each lookup is keyed by an id of this term, and multiplied in exactly once per occurrence of the id
+    keys = []; once = []
+    for f, via, ubi in looks:
+        mp = K.msg_path(f[3][1])
+        hit = [i for i, p in enumerate(spec['ids']) if mp is not None and same_path(mp[0], p)]
+        keys.append(spec['ids'][hit[0]][-1][1] if hit else None)
+        if mp is None: continue
+        loops_used |= set(mp[1])
+        # the factor enters the product in the loop that yields its id (directly in the term, or through a `p *= x` update)
+        site_loop = K.innermost(via if via is not None else ubi)
+        key_loop = K.by_next[mp[1][-1]][1] if mp[1] and mp[1][-1] in K.by_next else None
+        if mp[1][:1] != [term_loop] or site_loop != key_loop:
+            once.append(('a looked-up value is not multiplied in exactly once per id of the term (update in loop bb%s, id from loop bb%s)' % (site_loop, key_loop), body.site(via if via is not None else ubi)))
+        elif via is not None:
+            w = K.every_iteration(mp[1], [via])
+            if w: once.append(('the factor of an id can be skipped: %s' % '; '.join(w), body.site(via)))
+    for f, via, ubi, mp in coefs:
+        loops_used |= set(mp[1])
+        if mp[1] != [term_loop] or via is not None and K.innermost(via) != Lp[1]:
+            once.append(('the coefficient is not the one of the current term', body.site(ubi)))
+    want = sorted(p[-1][1] for p in spec['ids'])
+    ctx.check(sorted(x for x in keys if x) == want * nups and None not in keys, R + '.fields/%s/lookup-keys' % short, 'T-CARRY', fn, 'values are looked up under %s, expected %s' % (keys, want), body.site(ups[0][2]))
+    decide(ctx, R + '.fields/%s/one-factor-per-id' % short, 'T-LOOPMUST', body, once)
+    # the loops that yield coefficient and ids run over the message's own lists (no filtered, de-duplicated or re-ordered copy)
+    probs = []
+    for nb in sorted(loops_used):
+        lo = K.by_next.get(nb)
+        for leaf in comp_leaves(K.comp_of(lo)) if lo else [('other', ('local', -1))]:
+            if leaf[0] == 'index': continue
+            if leaf[0] != 'src' or K.msg_path(leaf[1]) is None:
+                probs.append(('a loop iterates a derived collection instead of the message\'s own list (%s)' % T.expr_str(leaf[1]), body.site(nb)))
+    # an id loop that is not recognised at all (key does not resolve): report the loop of the lookup
+    for f, via, ubi in looks:
+        if K.msg_path(f[3][1]) is None:
+            probs.append(('the id of a lookup does not come straight from the message\'s own list (%s)' % T.expr_str(f[3][1]), body.site(f[4] if len(f) > 4 else ubi)))
+    decide(ctx, R + '.every-term/%s/iterates-message-directly' % short, 'T-LOOPMUST', body, probs)
+
     # ---- used ids
+    used_rules(ctx, K, short, spec, sop)
+
+
+# ------------------------------------------------------------------------------------------------
+# fallback: the accumulation is hidden in an iterator consumer that the normal form does not open
+# ------------------------------------------------------------------------------------------------
+FULL_CONSUMERS = ('sum', 'product', 'fold', 'try_fold', 'for_each', 'try_for_each', 'collect')      # visit every element (unlike find / any / all / position / nth / last ..)
+PASS_ADAPTORS = ('map', 'inspect', 'copied', 'cloned', 'by_ref', 'enumerate', 'zip')             # one output element per input element
+PRECISE = {'fields': ['sum-is-added', 'init', 'term-is-coefficient-times-values', 'lookup-keys', 'one-factor-per-id'],
+           'every-term': ['loop', 'dominates', 'all-terms', 'accumulated', 'iterates-message-directly'],
+           'used': ['ids', 'into-result-set', 'every-id'], 'lookup': ['visible']}
+DERIVING = re.compile(r'::(dedup\w*|sort\w*|retain|truncate|drain|filter|skip|take|step_by|take_while|skip_while|filter_map|nth|map_while|rev|unique|dedup_by_key)(::<.*>)?$')
+
+
+def unopened_consumers(value):
+    """calls of Iterator consumers (with a closure somewhere below) left in a value expression"""
+    out = []
+    for x in T.expr_walk(value):
+        if x[0] == 'call' and 'Iterator' in x[2] and x[3] and any(y[0] == 'agg' and y[1].startswith('closure:') for y in T.expr_walk(x)):
+            if not any(x is not o and any(y is x for y in T.expr_walk(o)) for o in out): out.append(x)
+    return out[:1] if out else []
+
+
+def weak_kernel(ctx, K, short, spec, vop, sop, consumer, hidden):
+    R = 'C01'; body = K.body; fn = body.name
+    why = 'the value is accumulated inside `%s` over a closure chain that the normal form does not open' % consumer[1]
+    for fam, names in PRECISE.items():
+        for n in names: ctx.undecided('%s.%s/%s/%s' % (R, fam, short, n), 'T-LOOPMUST' if fam == 'every-term' else 'T-CARRY', body.site(consumer[4]), why)
+    def weak(fam, name, cond, detail, template='T-CARRY'):
+        ctx.check(bool(cond), '%s.%s/%s/%s~weak' % (R, fam, short, name), template, fn, detail, body.site(consumer[4]))
+    sv = ctx.S.slice_operand(body, vop); ss = ctx.S.slice_operand(body, sop)
+    init_field = {'constant': ('v1::Linear', 'constant'), 'linear-part': ('v1::Quadratic', 'linear')}.get(spec['init'])
+    # ---- value
+    weak('fields', 'sum-is-added', sv.has_field(*spec['coef'][-1]), 'the value does not depend on the coefficients')
+    weak('fields', 'init', init_field is None or sv.has_field(*init_field), 'the value does not depend on %s' % (init_field,))
+    weak('fields', 'term-is-coefficient-times-values', sv.has_call(STATE_GET) and 2 in sv.params, 'the value does not depend on lookups in the given state')
+    weak('fields', 'lookup-keys', all(sv.has_field(*p[-1]) for p in spec['ids']), 'the value does not depend on every id field')
+    weak('fields', 'one-factor-per-id', not [c for c in sv.calls if DERIVING.search(T.strip_generics_tail(c))], 'the value goes through a filtered / re-ordered / de-duplicated collection: %s' % sorted(c.split('::')[-1] for c in sv.calls if DERIVING.search(T.strip_generics_tail(c)))[:4], 'T-LOOPMUST')
+    # ---- the chain under the consumer
+    n = consumer[3][0]; restricted = []
+    while n[0] == 'call' and n[3]:
+        nm = T.strip_generics_tail(n[2])
+        if 'Iterator' in n[2] and n[1] in PASS_ADAPTORS and n[1] != 'zip': n = n[3][0]; continue
+        if ITERISH.search(nm) and n[1] != 'zip' and not nm.endswith('multizip'): n = n[3][0]; continue
+        if 'Iterator' in n[2] and n[1] not in ('zip',): restricted.append(n[1])
+        break
+    comp = components(n)
+    leaves = list(comp_leaves(comp))
+    def leaf_from_msg(l):
+        if l[0] == 'index': return True
+        mp = K.msg_path(l[1]) if l[0] == 'src' else None
+        return mp is not None and any(same_path(mp[0][:1], p[:1]) for p in [spec['coef']] + spec['ids'])
+    from_msg = all(leaf_from_msg(l) for l in leaves)
+    weak('every-term', 'loop', from_msg, 'the consumer does not run over the message\'s own term list (%s)' % [T.expr_str(l[1]) if len(l) > 1 else l[0] for l in leaves], 'T-LOOPMUST')
+    weak('every-term', 'dominates', all(body.dominates(consumer[4], e) for e in body.strict_ok_exits()), 'the consumer does not dominate the Ok-exit', 'T-MUSTCALL')
+    weak('every-term', 'all-terms', not restricted, 'the term iterator is restricted by %s' % restricted, 'T-LOOPMUST')
+    weak('every-term', 'accumulated', consumer[1] in FULL_CONSUMERS, '`%s` does not visit every term' % consumer[1], 'T-LOOPMUST')
+    weak('every-term', 'iterates-message-directly', all(l[0] in ('src', 'index') for l in leaves), 'the consumer runs over a derived collection', 'T-LOOPMUST')
+    # ---- the Result of the consumer (errors of the closure) is propagated
+    cc = [c for c in body.calls if c.bb == consumer[4]]
+    fallible = bool(cc) and 'Result' in body.locals[cc[0].dst['l']]
+    bad = errflow_bad(body, cc) if fallible else []
+    weak('lookup', 'visible', not hidden or (fallible and not bad), 'errors of the closure (missing variables) are not propagated: %s' % ([w for c, w in bad] or 'the consumer does not return a Result'), 'T-ERRFLOW')
+    # ---- used ids
+    weak('used', 'ids', all(ss.has_field(*p[-1]) for p in spec['ids']), 'the returned set does not depend on every id field')
+    weak('used', 'into-result-set', ss.has_call(r'BTreeSet(::)?<.*>(::| as .*>::)(insert|extend)'), 'nothing is inserted into the returned set')
+    weak('used', 'every-id', not [c for c in ss.calls if DERIVING.search(T.strip_generics_tail(c))], 'the ids go through a filtered / re-ordered / de-duplicated collection', 'T-LOOPMUST')
+    if spec['init'] == 'linear-part':
+        tests = option_field_tests(body, 'v1::Quadratic', 'linear'); oks = body.strict_ok_exits()
+        none_only = set().union(*[body.reach([nn]) - body.reach([sm]) for sb, sm, nn in tests]) if tests else set()
+        zero = [bi for bi, st in body.stmts() if bi in none_only and any(o['k'] == 'const' and o['v'] == '0f64' for o in st['rv'].get('ops', []))]
+        ctx.check(bool(zero), R + '.linear-none/zero', 'T-CONST', fn, 'absent linear part does not contribute (0, {})', body.site())
+        ctx.check(any(reach_v(body, [nn]) & oks for sb, sm, nn in tests) and not (none_only & body.err_exits()), R + '.linear-none/ok', 'T-GUARD', fn, 'absent linear part leads to an error', body.site())
+        le = [c for c in body.calls if c.item == 'evaluate' and 'v1::Linear as evaluate::Evaluate' in c.name]
+        decide(ctx, R + '.fields/%s/linear-error' % short, 'T-ERRFLOW', body, [('linear part evaluation: ' + w, body.site(c.bb)) for c, w in errflow_bad(body, le)] + ([] if le else [('the linear part is not evaluated', None)]))
+        ctx.check(ss.has_call(r'v1::Linear as evaluate::Evaluate>::evaluate'), R + '.used/Quadratic/includes-linear-ids', 'T-CARRY', fn, 'ids of the linear part are not reported', body.site())
+
+
+def init_check(ctx, K, short, kind, inits, Lp):
+    """inits: the summands the sum starts from (definitions of the accumulator outside the loop + summands added at the exit)"""
+    R = 'C01'; body = K.body; fn = body.name
+    descr = [T.expr_str(peel(x)) for x, bi in inits]
+    outside = all(bi not in Lp[4] for x, bi in inits)
+    nz = [(peel(x), bi) for x, bi in inits if peel(x) != ('const', '0f64')]          # 0.0 + x ≡ x
+    init_ok = False
+    if kind == 'constant':
+        init_ok = len(nz) == 1 and K.msg_path(nz[0][0]) == ([('v1::Linear', 'constant')], [])
+    elif kind == 'zero':
+        init_ok = not nz and bool(inits)
+    elif kind == 'linear-part':
+        # (sum, ids) = match &self.linear { Some(l) => l.evaluate(state)?, None => (0.0, {}) }   (if let / match / as_ref() alike)
+        entries = []
+        if len(nz) == 1:
+            n, bi = nz[0]
+            entries = list(zip(n[2], n[3])) if n[0] == 'phi' else [(n, bi)]
+        tests = option_field_tests(body, 'v1::Quadratic', 'linear')
+        some_ok = none_ok = False; rest = []
+        for x, bi in entries:
+            n = peel(x)
+            if n == ('const', '0f64'):
+                if any(bi in body.reach([nn], stop={Lp[1]}) and bi not in body.reach([sm], stop={Lp[1]}) for sb, sm, nn in tests):
+                    none_ok = True
+                    # an absent linear part is not an error
+                    ctx.check(bool(reach_v(body, [bi]) & body.strict_ok_exits()), R + '.linear-none/ok', 'T-GUARD', fn, 'absent linear part leads to an error', body.site(bi))
+                    continue
+            if n[0] == 'proj' and n[1][0] == 'call' and n[1][1] == 'evaluate' and 'v1::Linear as evaluate::Evaluate' in n[1][2]:
+                ev = n[1]
+                if [f for a, f in n[2] if a == 'tuple'] == ['0'] and ('v1::Quadratic', 'linear') in T.expr_fields(ev[3][0]) and peel(ev[3][1]) == ('place', 2, []) \
+                        and any(ev[4] in body.reach([sm], stop={Lp[1]}) and ev[4] not in body.reach([nn], stop={Lp[1]}) for sb, sm, nn in tests):
+                    some_ok = True; continue
+            rest.append(x)
+        init_ok = some_ok and none_ok and not rest
+        ctx.check(none_ok, R + '.linear-none/zero', 'T-CONST', fn, 'absent linear part does not contribute (0, {})', body.site())
+        le = [c for c in body.calls if c.item == 'evaluate' and 'v1::Linear as evaluate::Evaluate' in c.name]
+        decide(ctx, R + '.fields/%s/linear-error' % short, 'T-ERRFLOW', body, [('linear part evaluation: ' + why, body.site(c.bb)) for c, why in errflow_bad(body, le)])
+    ctx.check(init_ok and outside, R + '.fields/%s/init' % short, 'T-CARRY', fn, 'accumulator does not start from %s (found %s)' % (kind, descr), body.site())
+
+
+# ways of recording ids in the result set
+#   set.insert(id)                       inside the loop that yields the id, on every path
+#   set.extend(<ITERISH view of ids>)    ≡ for id in ids { set.insert(*id) }       (extend([a, b]) is two inserts in the normal form)
+SET_INSERT = re.compile(r'BTreeSet::<.*>::insert$')
+SET_EXTEND = re.compile(r'BTreeSet<.*> as std::iter::Extend<.*>>::extend$|BTreeSet::<.*>::extend$')
+
+
+def used_rules(ctx, K, short, spec, sop):
+    R = 'C01'; body = K.body; fn = body.name; vx = K.vx
     set_l = T.access_path(body, sop, transparent=T.TRANSPARENT_NOCLONE)[1]
-    ins = [c for c in body.calls if c.item == 'insert' and 'BTreeSet::<u64>::insert' in c.name and c.bb in blocks]
-    ctx.check(len(ins) == len(id_fields), R + '.used/%s/inserts' % short, 'T-LOOPMUST', body.name, 'expected %d insert(s) of term ids, found %d' % (len(id_fields), len(ins)), body.site())
-    got = []
-    for c in ins:
-        ctx.check(T.access_path(body, c.args[0], transparent=T.TRANSPARENT_NOCLONE)[1] == set_l, R + '.used/%s/into-result-set' % short, 'T-CARRY', body.name, 'id is inserted into another set', body.site(c.bb))
-        kx = T.expr(body, c.args[1])
-        zf = zip_field(ctx, body, nextc, kx) if short == 'Quadratic' else None
-        kf = [x for x in T.expr_fields(kx) if x in id_fields]
-        got.append(zf or (kf[0][1] if kf else None))
-        # every id of every term: on every path of the loop that owns the insert
-        own = [l for l in T.for_loops(body) if c.bb in l[4]]
-        own = min(own, key=lambda l: len(l[4]))
-        ctx.check(T.must_pass(body, own[2], {own[1]}, {c.bb}), R + '.used/%s/every-id' % short, 'T-LOOPMUST', body.name, 'an id can be skipped', body.site(c.bb))
-    ctx.check(sorted(x for x in got if x) == sorted(f for a, f in id_fields), R + '.used/%s/ids' % short, 'T-CARRY', body.name, 'inserted ids are %s, expected %s' % (got, sorted(f for a, f in id_fields)), body.site())
-    if init_kind == 'linear-part':
+    def into_set(c):
+        return T.access_path(body, c.args[0], transparent=T.TRANSPARENT_NOCLONE)[1] == set_l
+    sites = []          # (call, path fields, loops chain)
+    stray = []
+    for c in body.calls:
+        nm = T.strip_generics_tail(c.name)
+        if c.item == 'insert' and SET_INSERT.search(nm) and len(c.args) == 2:
+            mp = K.msg_path(vx.op(c.args[1]))
+            if mp is None or not any(same_path(mp[0], p) for p in spec['ids']): continue
+            (sites if into_set(c) else stray).append((c, mp[0], mp[1]))
+        elif c.item == 'extend' and SET_EXTEND.search(nm) and len(c.args) == 2:
+            comp = components(vx.op(c.args[1]))
+            mp = K.msg_path(comp[1]) if comp[0] == 'src' else None
+            if mp is None or not any(same_path(mp[0], p) for p in spec['ids']): continue
+            (sites if into_set(c) else stray).append((c, mp[0], mp[1]))
+    got = []; probs = []
+    for p in spec['ids']:
+        cands = [s for s in sites if same_path(s[1], p)]
+        why = None
+        for c, fs, chain in cands:
+            w = K.every_iteration(chain, [c.bb])
+            # the loops crossed must run over the message's own lists
+            for nb in chain:
+                if any(leaf[0] not in ('src', 'index') or (leaf[0] == 'src' and K.msg_path(leaf[1]) is None) for leaf in comp_leaves(K.comp_of(K.by_next[nb]))): w.append('derived collection')
+            if not w: why = None; got.append(p[-1][1]); break
+            why = w
+        if why: probs.append(('an id of %s can be skipped: %s' % (p[-1][1], '; '.join(why)), body.site(cands[0][0].bb)))
+    want = sorted(p[-1][1] for p in spec['ids'])
+    seen = sorted({s[1][-1][1] for s in sites})
+    ctx.check(seen == want, R + '.used/%s/ids' % short, 'T-CARRY', fn, 'ids recorded in the result set are %s, expected %s' % (seen, want), body.site())
+    decide(ctx, R + '.used/%s/into-result-set' % short, 'T-CARRY', body,
+           [('id is inserted into another set', body.site(c.bb)) for c, fs, ch in stray if not any(same_path(s[1], fs) for s in sites)])
+    decide(ctx, R + '.used/%s/every-id' % short, 'T-LOOPMUST', body, probs)
+    if spec['init'] == 'linear-part':
         s = ctx.S.backslice(body, [set_l])
-        ctx.check(s.has_call(r'v1::Linear as evaluate::Evaluate>::evaluate'), R + '.used/Quadratic/includes-linear-ids', 'T-CARRY', body.name, 'ids of the linear part are not reported', body.site())
+        ctx.check(s.has_call(r'v1::Linear as evaluate::Evaluate>::evaluate'), R + '.used/Quadratic/includes-linear-ids', 'T-CARRY', fn, 'ids of the linear part are not reported', body.site())
 
 
-def zip_field(ctx, body, nextc, e):
-    """for the multizip loop of Quadratic::evaluate: which of rows/columns/values does expr e read?"""
-    idx = None
-    for x in T.expr_walk(e):
-        if x[0] == 'proj' and x[1][0] == 'call' and x[1][1] == 'next':
-            t = [f for a, f in x[2] if a == 'tuple']
-            if t: idx = t[-1]
-    if idx is None: return None
-    si = ctx.S.slice_operand(body, nextc.args[0])
-    for c in si.call_objs:
-        if 'multizip' in c.name or c.item == 'izip':
-            a0 = c.args[0]
-            if a0['k'] in ('copy', 'move'):
-                for k2, b2, d in body.defs_of(a0['pl']['l']):
-                    if k2 == 'stmt' and d['rv']['k'] == 'agg' and d['rv']['adt'] == 'tuple':
-                        o = d['rv']['ops'][int(idx)]
-                        fs = [f for a, f in T.access_path(body, o)[0] if a.endswith('v1::Quadratic')] or [f for a, f in ctx.S.slice_operand(body, o).fields if a.endswith('v1::Quadratic')]
-                        return fs[0] if len(set(fs)) == 1 else None
-    return None
-
-
+# ------------------------------------------------------------------------------------------------
+# the oneof dispatcher
+# ------------------------------------------------------------------------------------------------
 def oneof_rules(ctx):
     R = 'C01.oneof'
     body = ctx.method(R + '/anchor', 'v1::Function', 'evaluate', trait='Evaluate')
@@ -248,10 +852,11 @@ def oneof_rules(ctx):
     en = ctx.F.adt('v1::function::Function')
     if en is None:
         ctx.lost(R, 'enum v1::function::Function'); return
+    vx = VX(body)
     variants = [v['name'] for v in en['variants']]
     want = {'Constant': None, 'Linear': 'v1::Linear', 'Quadratic': 'v1::Quadratic', 'Polynomial': 'v1::Polynomial'}
     ctx.check(set(variants) == set(want), R + '/variant-list', 'T-TABLE', body.name, 'oneof variants are %s, rule table knows %s' % (variants, sorted(want)), body.site())
-    # outer Option test and inner enum switch
+    # outer Option test (match / if let / let-else, on &self.function or self.function.as_ref()) and inner enum switch
     tests = option_field_tests(body, 'v1::Function', 'function')
     ctx.check(len(tests) >= 1, R + '/option-test', 'T-BRANCHFX', body.name, 'no test on self.function', body.site())
     if not tests: return
@@ -266,23 +871,38 @@ def oneof_rules(ctx):
         if o0['k'] == 'const' and o0['v'] == '0f64' and s1[0] == 'call' and s1[1] == 'new' and 'BTreeSet' in s1[2]: okn = True
     ctx.check(okn and not (nr & body.err_exits()) and bool(T.reach_cp(body, [none_t]) & body.strict_ok_exits()), R + '/unset-is-zero', 'T-BRANCHFX', body.name,
               'an unset oneof does not evaluate to (0.0, {})', body.site())
-    # one arm per variant
+    # one arm per variant: the switch on the discriminant of the oneof payload
     sw = None
-    for bi in T.reach_cp(body, [some_t]) | {sb}:
+    for bi in sorted(T.reach_cp(body, [some_t]) | {sb}):
         t = body.blocks[bi]['term']
         if t['k'] == 'switch' and t['d']['k'] != 'const':
             for k2, b2, d in body.defs_of(t['d']['pl']['l']):
-                if k2 == 'stmt' and d['rv']['k'] == 'discr' and any('function::Function' in a for a, f in fields_of_place(d['rv']['pl'])) or (k2 == 'stmt' and d['rv']['k'] == 'discr' and any(p.get('dc') == 'Some' for p in d['rv']['pl']['p'] if isinstance(p, dict))):
-                    if bi != sb or len(t['ts']) > 1: sw = (bi, t)
+                if k2 != 'stmt' or d['rv']['k'] != 'discr': continue
+                pl = d['rv']['pl']; fsp = fields_of_place(pl)
+                lty = body.locals[pl['l']].replace('&', '').replace("'_ ", '').strip()
+                on_enum = any('function::Function' in a for a, f in fsp) or (not fsp and lty.endswith('v1::function::Function')) or any(isinstance(p, dict) and p.get('dc') == 'Some' for p in pl['p'])
+                if on_enum and (bi != sb or len(t['ts']) > 1): sw = (bi, t)
     if sw is None:
         # the Option and the enum may be tested by one switch chain; look for any switch with >= 3 targets
-        for bi in body.live:
+        for bi in sorted(body.live):
             t = body.blocks[bi]['term']
             if t['k'] == 'switch' and len(t['ts']) >= 3: sw = (bi, t)
     ctx.check(sw is not None, R + '/enum-switch', 'T-BRANCHFX', body.name, 'no switch over the oneof variants', body.site())
     if sw is None: return
     bi, t = sw; m = {v: tg for v, tg in t['ts']}
     targets = {v['name']: m.get(v['discr'], t['else']) for v in en['variants']}
+    # what the Ok-exits return: `Ok(x)` with x resolved through copies / `?` / phi of the arms; or a callee's Result returned as it is
+    returned = []           # value expressions
+    direct = set()          # blocks of calls whose Result is the function's result
+    for e, k, st in body.ret_assignments():
+        if k == 'ok':
+            n = peel(vx.op(st['rv']['ops'][0]))
+            returned += [peel(x) for x in n[2]] if n[0] == 'phi' else [n]
+        elif k == 'callval': direct.add(e)
+        elif k == 'val':
+            n = peel(vx.op(st['rv']['ops'][0]))
+            for x in ([peel(y) for y in n[2]] if n[0] == 'phi' else [n]):
+                if x[0] == 'call': direct.add(x[4])
     for name, tg in targets.items():
         others = [x for n2, x in targets.items() if n2 != name]
         reg = T.reach_cp(body, [tg]) - set().union(*[T.reach_cp(body, [x]) for x in others if x != tg]) if others else T.reach_cp(body, [tg])
@@ -299,21 +919,28 @@ def oneof_rules(ctx):
             ok = len(evs) == 1 and re.search(r'<%s as evaluate::Evaluate>::evaluate' % re.escape(want[name]), evs[0].name) and T.access_path(body, evs[0].args[1])[1] == 2 \
                  and any(name in a for a, f in T.access_path(body, evs[0].args[0])[0])
             ctx.check(bool(ok), R + '/arm/' + name, 'T-BRANCHFX', body.name, '%s arm does not evaluate its %s payload at the given state' % (name, name), body.site(tg))
-            errflow_calls(ctx, R + '/arm/%s/error' % name, body, evs, 'payload evaluation')
-    # the value of the chosen arm is returned unchanged
-    for e, k, st in body.ret_assignments():
-        if k == 'ok':
-            s = ctx.S.slice_operand(body, st['rv']['ops'][0])
-            n = len([c for c in s.call_objs if c.item == 'evaluate'])
-            ctx.check(n == 3, R + '/returns-arm-result', 'T-CARRY', body.name, 'result does not depend on all three payload evaluations (%d)' % n, body.site(e))
-            arith_ops = [b2 for b2, st2 in body.stmts() if st2['rv']['k'] in ('bin', 'un') and st2['rv'].get('ty') == 'f64']
-            ctx.check(not arith_ops, R + '/no-arithmetic', 'T-BRANCHFX', body.name, 'the dispatcher modifies the value', body.site(e))
+            decide(ctx, R + '/arm/%s/error' % name, 'T-ERRFLOW', body, [('payload evaluation: ' + why, body.site(c.bb)) for c, why in errflow_bad(body, evs)])
+            # the value of the chosen arm is returned unchanged:  Ok(e?) ≡ e
+            unchanged = len(evs) == 1 and (evs[0].bb in direct or any(x[0] == 'call' and x[1] == 'evaluate' and x[4] == evs[0].bb for x in returned)
+                                            or any(rebuilt_pair(x, evs[0].bb) for x in returned))
+            ctx.check(unchanged, R + '/returns-arm-result/' + name, 'T-CARRY', body.name, 'the result of evaluating the %s payload is not what the function returns' % name, body.site(tg))
+    arith_ops = [b2 for b2, st2 in body.stmts() if st2['rv']['k'] in ('bin', 'un') and st2['rv'].get('ty') == 'f64']
+    arith_ops += [c.bb for c in body.calls if T.ARITH_CALL.match(c.name) or T.ASSIGN_CALL.match(c.name)]
+    ctx.check(not arith_ops, R + '/no-arithmetic', 'T-BRANCHFX', body.name, 'the dispatcher modifies the value', body.site(arith_ops[0]) if arith_ops else body.site())
+
+
+def rebuilt_pair(x, bb):
+    """`let (v, ids) = e?; (v, ids)` ≡ `e?`: a tuple whose k-th component is (one definition of which is) the k-th component of the call result at block bb"""
+    if x[0] != 'agg' or x[1] != 'tuple' or len(x[2]) != 2: return False
+    for k, comp in enumerate(x[2]):
+        comp = peel(comp)
+        alts = [peel(y) for y in comp[2]] if comp[0] == 'phi' else [comp]
+        if not any(y[0] == 'proj' and y[1][0] == 'call' and y[1][1] == 'evaluate' and y[1][4] == bb and [f for a, f in y[2] if a == 'tuple'] == [str(k)] for y in alts): return False
+    return True
 
 
 def check(ctx):
-    kernel_rules(ctx, 'v1::Linear', {('v1::linear::Term', 'coefficient')}, [('v1::linear::Term', 'id')], 'constant')
-    kernel_rules(ctx, 'v1::Quadratic', {('v1::Quadratic', 'values')}, [('v1::Quadratic', 'rows'), ('v1::Quadratic', 'columns')], 'linear-part')
-    kernel_rules(ctx, 'v1::Polynomial', {('v1::Monomial', 'coefficient')}, [('v1::Monomial', 'ids')], 'zero')
+    for short in ('Linear', 'Quadratic', 'Polynomial'): kernel_rules(ctx, short)
     oneof_rules(ctx)
     # coverage of the message fields by the evaluators
     for ty, ex in (('v1::Linear', ()), ('v1::Quadratic', ()), ('v1::Polynomial', ())):
@@ -321,21 +948,22 @@ def check(ctx):
         cover(ctx, 'C01.cover/' + ty.split('::')[-1], b, ty, exempt=ex)
     b = ctx.F.one('v1::Linear', 'evaluate', trait='Evaluate'); cover(ctx, 'C01.cover/Term', b, 'v1::linear::Term')
     b = ctx.F.one('v1::Polynomial', 'evaluate', trait='Evaluate'); cover(ctx, 'C01.cover/Monomial', b, 'v1::Monomial')
-    ctx.floor('C01.lookup', 11); ctx.floor('C01.fields', 10); ctx.floor('C01.used', 10); ctx.floor('C01.every-term', 9); ctx.floor('C01.oneof', 10); ctx.floor('C01.linear-none', 2); ctx.floor('C01.cover', 9)
+    ctx.floor('C01.lookup', 9); ctx.floor('C01.fields', 19); ctx.floor('C01.used', 10); ctx.floor('C01.every-term', 15); ctx.floor('C01.oneof', 15); ctx.floor('C01.linear-none', 2); ctx.floor('C01.cover', 11)
 
 
 def thorough(ctx):
     """crate-wide sweep: every lookup in a State's entries either errors on a missing id or is one of
     the documented 'is this variable fixed?' probes"""
     seen = {}
+    spliced = getattr(ctx.F, 'inlined_closures', set())
     for b in ctx.F.bodies.values():
-        if b.kind == 'promoted': continue
+        if b.kind == 'promoted' or b.name in spliced: continue       # a spliced closure is checked where its body now stands
         lk = state_lookups(ctx, b)
         if not lk: continue
         root = ctx.F.bodies.get(b.parent, b)
         key = (root.hdr.get('self'), root.hdr.get('item'))
         for c in lk:
-            res = T.errflow(b, c.dst['l'])
+            res = errflow_v(b, c.dst['l'])
             bad = [h for k, h in res if k == 'bad']
             if not bad:
                 ctx.ok('C01.sweep/lookup', 'T-ERRFLOW', b.site(c.bb)); continue
